@@ -27,7 +27,8 @@ class UWorld:
         return ('GLOBAL', name.split('::')[-1])
 
     def allow(self, body, c):
-        return False
+        # helpers of the file that are not members (a computation moved out of writeAttrURI) are followed; members are modelled by the hooks
+        return body['file'].endswith('XMLSupport/FormatterToHTML.cpp') and not body.get('cls')
 
     def destructor(self, o):
         return None
